@@ -71,6 +71,12 @@ def dictSet (acc : List (Str × Tok)) (key : Str) (v : Tok) : List (Str × Tok) 
   if acc.any (·.1 = key) then acc.map (fun kv => if kv.1 = key then (key, v) else kv)
   else (key, v) :: acc
 
+/-- `comma = args_str.find(","); if comma != -1: args_str = args_str[comma + 1:]` -/
+def afterComma (rest : Str) : Str :=
+  match find ',' rest with
+  | some k => rest.drop (k + 1)
+  | none => rest
+
 mutual
 /-- `t.parse(token, namespace)` -/
 def parseTok (ns : Ns) (fuel : Nat) (ty : Ty) (tok : Str) : Except Err Tok :=
@@ -98,10 +104,9 @@ def parseArgs (ns : Ns) (fuel : Nat) (s : Str) (acc : List Tok) : Except Err (Li
     | .error e => .error e
     | .ok (none, _) => .error (.parse "Function expected an argument, got nothing")
     | .ok (some (ty, tok), rest) =>
-      let rest' := match find ',' rest with | some k => rest.drop (k + 1) | none => rest
       match parseTok ns fuel ty tok with
       | .error e => .error e
-      | .ok a => parseArgs ns fuel rest' (a :: acc)
+      | .ok a => parseArgs ns fuel (afterComma rest) (a :: acc)
 /-- `QList.parse` loop -/
 def parseList (ns : Ns) (fuel : Nat) (s : Str) (acc : List Tok) : Except Err (List Tok) :=
   match fuel with
@@ -151,11 +156,14 @@ end
 /-- fuel that `parse(line)` needs at most for a token cut from `line` -/
 def stmtFuel (line : Str) : Nat := 2 * line.length + 3
 
-/-- `parse(line, namespace)`: returns the assigned name and the value token -/
-def parseStmt (ns : Ns) (line : Str) : Except Err (Str × Tok) :=
-  -- `line[:i]`, `line[i+1:]` with `i = line.find("=")` (`-1`: `line[:-1]`, `line[0:]`)
-  let varStr := match find '=' line with | some k => line.take k | none => line.dropLast
-  let valStr := match find '=' line with | some k => line.drop (k + 1) | none => line
+/-- `line[:i]`, `line[i+1:]` with `i = line.find("=")` (`-1`: `line[:-1]`, `line[0:]`) -/
+def splitAssign (line : Str) : Str × Str :=
+  match find '=' line with
+  | some k => (line.take k, line.drop (k + 1))
+  | none => (line.dropLast, line)
+
+/-- body of `parse(line, namespace)` after the split -/
+def parseAssign (ns : Ns) (fuel : Nat) (varStr valStr : Str) : Except Err (Str × Tok) :=
   if valStr = [] then .error (.parse "Nothing to assign") else
   match parseToken varStr with
   | .error e => .error e
@@ -170,10 +178,14 @@ def parseStmt (ns : Ns) (line : Str) : Except Err (Str × Tok) :=
         match tt with
         | none => .error (.py .attributeError)      -- `val_t` is None: `None.parse`
         | some (ty, tok) =>
-          match parseTok ns (stmtFuel line) ty tok with
+          match parseTok ns fuel ty tok with
           | .error e => .error e
           | .ok e => .ok (name, e)
     | _ => .error (.parse "Cannot assign to a non-variable")
+
+/-- `parse(line, namespace)`: returns the assigned name and the value token -/
+def parseStmt (ns : Ns) (line : Str) : Except Err (Str × Tok) :=
+  parseAssign ns (stmtFuel line) (splitAssign line).1 (splitAssign line).2
 
 /-- `[s.strip() for s in query.split(";") if s.strip()]` -/
 def statements (text : Str) : List Str :=
